@@ -7,6 +7,7 @@ use std::io::{self, BufRead, Write};
 
 mod c03;
 mod c07;
+mod c08;
 mod c10;
 mod c11;
 mod c12;
@@ -24,6 +25,7 @@ fn main() {
     let f: fn(&Value) -> Value = match sub {
         "c03" => c03::run,
         "c07" => c07::run,
+        "c08" => c08::run,
         "c10" => c10::run,
         "c11" => c11::run,
         "c12" => c12::run,
